@@ -233,10 +233,13 @@ def jit_oracle(ctx):
 
 def run(ctx, model_ok=True):
     if model_ok:
-        A.correspondence(ctx, group(), ctx.n(80, 500))
-    oracle(ctx)
+        with A.phase(ctx, "float_correspondence"):
+            A.correspondence(ctx, group(), ctx.n(40, 500))
+    with A.phase(ctx, "oracle"):
+        oracle(ctx)
     if ctx.tier == "thorough":
-        jit_oracle(ctx)
+        with A.phase(ctx, "jit_oracle"):
+            jit_oracle(ctx)
 
 
 def search(ctx):
